@@ -1,5 +1,5 @@
 """C36 — Bitswap server sends only wanted, present, permitted data and bounds queues (spec/BitswapEngine)."""
-import json, os, re
+import json, os, re, threading, time
 
 PKG = "bitswap/server/internal/decision"
 SPEC = "BitswapEngine"
@@ -11,10 +11,14 @@ META = dict(
                 "filterOverflow/handleOverflow eviction, cancels, task queue with merging, NotifyNewBlocks, block removal, "
                 "envelope construction + MessageSent) exhaustively on a small universe: safety invariants incl. EvictionOrder "
                 "and the liveness property under fair envelope production. TLC-generated wantlist scripts (exhaustive depth-2/3 "
-                "pools and model-steered simulations: 1-3 peers, limit 1..4, equal/distinct priorities, full/incremental, cancels, "
-                "duplicate/identity/oversize CIDs) and random 40-message scripts (limit 1..32, block add/remove, partial drains) "
-                "are executed on a real Engine; after every call WantlistForPeer, the pending task topics and every envelope are "
-                "compared by TLC with the specification (TraceBitswapEngine)."),
+                "pools; the exhaustive 'retype' family: want-type upgrades/downgrades across messages followed by block arrival, "
+                "block sizes at and just above the replace size, replacing on/off; the exhaustive 'overflow' family: a full "
+                "want-list of 3-4 wants with every stored/missing mix and priority vector hit by 2..limit newcomers, sampled evenly "
+                "over the model's handleOverflow branch classes; model-steered simulations: 1-3 peers, limit 1..5, equal/distinct "
+                "priorities, full/incremental, cancels, duplicate/identity/oversize CIDs) and random 40-message scripts (limit "
+                "1..32, block add/remove, partial drains) are executed on a real Engine; after every call WantlistForPeer, the "
+                "per-CID ledger index, the pending task topics and every envelope are compared by TLC with the specification "
+                "(TraceBitswapEngine)."),
     level_note=("Trusted: go-peertaskqueue heap/merge plumbing below PushTasksTruncated/PopTasks, the map blockstore, the harness "
                 "projection (CID<->number, entry order wrapper around the real message). One engine call = one atomic action "
                 "(races inside MessageReceived/nextEnvelope are not explored); empty blocks excluded."),
@@ -146,39 +150,91 @@ def run(ctx):
                         "blocks are stored and announced atomically (Put + NotifyNewBlocks), removals are silent",
                         "all tasks of a peer fit one envelope (harness blocks are small)",
                         "wantlist entry order of a message is an input (real messages iterate a map)"]
-    ctx.cov["rule"] = ("G: TLC enumerates every script of 2 (quick, sampled) / 2-3 steps over a small entry pool and simulates "
+    ctx.cov["rule"] = ("G: TLC enumerates every script of 2 (quick, sampled) / 2-3 steps over a small entry pool, every 'retype' "
+                       "script (same CID wanted twice with different want types, then its block announced; 3 / 4 steps), every "
+                       "'overflow' script (full want-list of 3 / 3-4 wants, all stored/missing mixes and priority vectors, one "
+                       "message with 2..limit newcomers; the same number of scripts is taken from every handleOverflow branch class "
+                       "= arrangement of stored/missing wants in priority order x newcomers x evicted x refused) and simulates "
                        "7-step scripts steered by the model state; T: seeded random 40-message scripts. Every script runs on a "
                        "real Engine (direct nextEnvelope and via the outbox worker); TLC validates every recorded call. "
                        "non-trivial = run in which a message evicted an existing want in favour of a newcomer")
-    # ---- M
-    if os.environ.get("C36_SKIP_M"):      # debugging aid for mutation runs only (the evidence then lacks phase M)
-        ctx.log("phase M skipped (C36_SKIP_M)")
-    elif q:
-        ctx.tlc_mc(SPEC, "MCBitswapEngine.tla", "MCBitswapEngineLive.cfg", timeout=900)
-    else:
-        # action coverage is measured on the small universe (TLC is several times slower with -coverage)
-        ctx.tlc_mc(SPEC, "MCBitswapEngine.tla", "MCBitswapEngineLive.cfg", timeout=3000, coverage=True)
-        ctx.tlc_mc(SPEC, "MCBitswapEngine.tla", "MCBitswapEngine.cfg", timeout=7000)
-        r = ctx.tlc_mc(SPEC, "MCBitswapEngine.tla", "MCBitswapEngineAsBuilt.cfg", timeout=1800, expect_violation=True)
-        if r["violated"] != "RawHaveOnly":
-            ctx.broken("sanity: the as-built model (Dev_C36_StaleHave) should violate RawHaveOnly, got %s" % r["violated"])
-    # ---- G: scripts from TLC
-    bfs = ctx.tlc_gen(SPEC, "GenBitswapEngine.tla", "GenBitswapEngine.cfg" if q else "GenBitswapEngineT.cfg", timeout=1800, workers=4)
-    if q and len(bfs) > 150:
-        bfs = ctx.rng.sample(bfs, 150)
-    d3 = []
+    # ---- M, the generators of G and the harness build are independent: run them side by side
+    ctx.open_devs()          # (fills the findings cache before threads start)
+    ctx.specdir(SPEC)
+    res, errs = {}, []
+
+    def job(name, fn, delay):
+        def body():
+            time.sleep(delay)       # distinct TLC metadir names (millisecond stamps)
+            try:
+                res[name] = fn()
+            except BaseException as e:     # re-raised in the main thread
+                errs.append(e)
+        t = threading.Thread(target=body, name=name)
+        t.start()
+        return t
+
+    def phase_m():
+        if os.environ.get("C36_SKIP_M"):      # debugging aid for mutation runs only (the evidence then lacks phase M)
+            ctx.log("phase M skipped (C36_SKIP_M)")
+        elif q:
+            ctx.tlc_mc(SPEC, "MCBitswapEngine.tla", "MCBitswapEngineLive.cfg", timeout=900)
+        else:
+            # action coverage is measured on the small universe (TLC is several times slower with -coverage)
+            ctx.tlc_mc(SPEC, "MCBitswapEngine.tla", "MCBitswapEngineLive.cfg", timeout=3000, coverage=True)
+            ctx.tlc_mc(SPEC, "MCBitswapEngine.tla", "MCBitswapEngine.cfg", timeout=7000)
+            r = ctx.tlc_mc(SPEC, "MCBitswapEngine.tla", "MCBitswapEngineAsBuilt.cfg", timeout=1800, expect_violation=True)
+            if r["violated"] != "RawHaveOnly":
+                ctx.broken("sanity: the as-built model (Dev_C36_StaleHave) should violate RawHaveOnly, got %s" % r["violated"])
+
+    def gen(cfg, workers=4, timeout=2400):
+        return lambda: ctx.tlc_gen(SPEC, "GenBitswapEngine.tla", cfg, timeout=timeout, workers=workers)
+
+    gens = [("bfs", gen("GenBitswapEngine.cfg" if q else "GenBitswapEngineT.cfg")),
+            ("retype", gen("GenBitswapEngineR.cfg" if q else "GenBitswapEngineR4.cfg")),
+            ("over", gen("GenBitswapEngineO.cfg" if q else "GenBitswapEngineOT.cfg", workers=4 if q else 8)),
+            ("sims", lambda: ctx.tlc_gen(SPEC, "GenBitswapEngine.tla", "GenBitswapEngineSim.cfg", simulate=6 if q else 20,
+                                         depth=8 * (10 if q else 25) + 1, timeout=1800))]
     if not q:
-        d3 = ctx.tlc_gen(SPEC, "GenBitswapEngine.tla", "GenBitswapEngineD3.cfg", timeout=2400, workers=8)
-        if len(d3) > 1500:
-            d3 = ctx.rng.sample(d3, 1500)
-        if len(bfs) > 1500:
-            bfs = ctx.rng.sample(bfs, 1500)
-    sims = ctx.tlc_gen(SPEC, "GenBitswapEngine.tla", "GenBitswapEngineSim.cfg", simulate=6 if q else 20,
-                       depth=8 * (10 if q else 25) + 1, timeout=1800)
-    binp = ctx.go_build(PKG, [PKG + "/zz_verif_C36_test.go"])
+        gens += [("d3", gen("GenBitswapEngineD3.cfg", workers=8)), ("over4", gen("GenBitswapEngineO4.cfg", workers=8))]
+    threads = [job("M", phase_m, 0)]
+    threads += [job(n, f, 0.3 * (i + 1)) for i, (n, f) in enumerate(gens)]
+    threads.append(job("build", lambda: ctx.go_build(PKG, [PKG + "/zz_verif_C36_test.go"]), 0.1))
+    for t in threads:
+        t.join()
+    if errs:
+        raise errs[0]
+    if ctx.brokens:
+        return
+    binp = res["build"]
+
+    def canon(behs):       # TLC workers print in any order: make the sampling reproducible per seed
+        return sorted(behs, key=lambda b: json.dumps(b, sort_keys=True))
+
+    def cut(behs, n):
+        behs = canon(behs)
+        return ctx.rng.sample(behs, n) if len(behs) > n else behs
+
+    def per_class(behs, n):
+        """the same number of scripts from every branch class of the model (signature computed by TLC)"""
+        cl = {}
+        for b in canon(behs):
+            cl.setdefault(json.dumps(b["sig"], sort_keys=True), []).append(b)
+        out = []
+        for k in sorted(cl):
+            out += ctx.rng.sample(cl[k], n) if len(cl[k]) > n else cl[k]
+        ctx.log("family %s: %d scripts in %d branch classes, %d taken" % (behs[0].get("fam"), len(behs), len(cl), len(out)))
+        return out
+
+    bfs = cut(res["bfs"], 150 if q else 1500)
+    d3 = cut(res.get("d3", []), 1500)
+    retype = cut(res["retype"], 150 if q else 1500)       # quick: the whole family (128 scripts)
+    over = per_class(res["over"], 4 if q else 12) + (per_class(res["over4"], 6) if not q else [])
+    sims = res["sims"]
+    fam = bfs + d3 + retype + over
     grecs = []
-    for name, behs, outbox in (("bfs", bfs + d3, False), ("sim", sims, False),
-                               ("simob", sims, True), ("bfsob", (bfs + d3)[::3], True)):
+    for name, behs, outbox in (("bfs", fam, False), ("sim", sims, False),
+                               ("simob", sims, True), ("bfsob", fam[::3], True)):
         if not behs:
             continue
         r = replay(ctx, binp, behs, name, outbox)
